@@ -252,6 +252,11 @@ def check (params lines : List String) : CaseResult := Id.run do
           | ["deliver", "signal", name] => (sigIndex name).map Act.deliver
           | _ => none
         match rest with
+        | ["answer", node, _, "err", "1", _] =>
+          -- an error answer whose handler asks for a retry: the token requests the host again and goes on waiting. For
+          -- the boundary events nothing has happened (the activity is waiting for its answer before and after); the
+          -- request that follows is the same activation's, not a new one
+          if node == hostTask && seen.h > 0 then seen := { seen with h := seen.h - 1 }
         | ["hold", pt] =>
           held := pt :: held
           -- a parked tracer delays what is SEEN, not what the activity does: the actions stay in sequence
